@@ -21,7 +21,7 @@ NG = 10          # gap variables
 NC = 5           # indentation levels
 
 _items = dict(skel.programs(LANG, TIER))[LABEL] if LABEL else None
-SK = skel.Skeleton(LANG, _items, LABEL, comments=("col1" if LABEL.startswith("cmt1-") else LABEL.startswith("cmt-"))) if LABEL else None
+SK = skel.Skeleton(LANG, _items, LABEL, comments=("col1" if LABEL.startswith("cmt1-") else "hostile" if LABEL.startswith("cmtx-") else LABEL.startswith("cmt-"))) if LABEL else None
 LANGUAGE = capture.language(LANG)
 FAM = skel.LANGS[LANG]["fam"]
 
@@ -166,6 +166,8 @@ def h_layout(g0: int, g1: int, g2: int, g3: int, g4: int, g5: int, g6: int, g7: 
     post: _
     """
     gs, cs = [g0, g1, g2, g3, g4, g5, g6, g7, g8, g9], [c0, c1, c2, c3, c4]
+    if SK.lex_mismatch:        # the real lex() places a token of the canonical text elsewhere than the oracle does: nothing below would be meaningful
+        return False
     toks, nl = _tokens(gs, cs, extra_comments=(MODE == "comments"))
     ms = scan_file(toks, LANGUAGE)
     exp = _expected(nl, cs) if MODE == "layout" else _expected_from_base(nl, cs)
@@ -218,6 +220,8 @@ def _render(gs, cs, extra_comments=False, nocl_line=None):
 def _real(gs, cs, extra_comments=False, nocl_line=None):
     from pygments.lexers import get_lexer_by_name
     from codelimit.common.lexer_utils import lex
+    if SK.lex_mismatch:
+        return {"reproduced": True, "sig": f"lex-positions:{LANG}", "detail": f"[{LABEL}] real lex() and the oracle disagree on a token position of the canonical text: {SK.lex_mismatch} in {SK.text[:300]!r}"}
     text = _render(gs, cs, extra_comments, nocl_line)
     toks = lex(get_lexer_by_name(skel.LANGS[LANG]["lexer"]), text, False)
     try:
